@@ -11,7 +11,7 @@ REQUIRED_THEOREMS = ['Usid.C10.flatten_of_reshape', 'Usid.C10.reshape_of_flatten
                      'Usid.C10.flatten_pos_only', 'Usid.C10.flatten_spec_only',
                      'Usid.C10.flatten_squeezed_pos', 'Usid.C10.flatten_squeezed_spec',
                      'Usid.C10.incompatible_raises', 'Usid.C10.rank_mismatch_raises', 'Usid.C10.result_shape']
-RULE = ('generator datasets (1-3 dimensions per side, sizes 1-4, every storage permutation; a share with a single '
+RULE = ('[also: main dtypes f8/f4/i4/c16/compound, chunked main, multi-chunk dask arrays, the lazily built N-D form, mixed containers for the two index matrices, verbose=True; a one-sided request must SUCCEED when every missing size is >= 2] generator datasets (1-3 dimensions per side, sizes 1-4, every storage permutation; a share with a single '
         'position or a single spectroscopic point); the file-order N-D form is flattened with the dataset\'s own index '
         'matrices passed as h5py / numpy / dask, with size-1 axes kept or squeezed, with only one matrix, and with '
         'shape-incompatible requests (wrong element count, wrong rank, one-sided with the matrix of another grid); non-trivial = N > 1 and M > 1 with a non-identity rate order on some side')
@@ -23,7 +23,7 @@ def generate(seed, tier):
     for i in range(n_cases):
         rng = derived_rng(seed, 'C10', i)
         while True:
-            ds = gen.gen_dataset(rng, max_dims=3, max_size=4, long_prob=0.12)
+            ds = gen.gen_dataset(rng, max_dims=3, max_size=4, long_prob=0.12, dtypes=('f8', 'f8', 'f4', 'i4', 'c16', 'compound'))
             if i % 7 == 6 or i % 7 == 3:
                 side = rng.choice(['pos', 'spec'])
                 ds[side] = {'sizes': [1], 'rate': [0], 'labels': [ds[side]['labels'][0]], 'units': ['u'], 'values': [[2]]}
@@ -36,7 +36,11 @@ def generate(seed, tier):
                     all(len(s['sizes']) <= gen.n_points(s) for s in (ds['pos'], ds['spec'])):
                 break
         cases.append({'ds': ds, 'anc': rng.choice(['h5py', 'numpy', 'dask']), 'squeeze': rng.random() < 0.3 or i % 7 == 3,
-                      'bad': rng.choice([None, None, None, 'count', 'rank']), 'pick': rng.randint(0, 7)})
+                      'bad': rng.choice([None, None, None, 'count', 'rank']), 'pick': rng.randint(0, 7),
+                      # the spectroscopic matrix may come in another container than the position matrix; chunked main;
+                      # verbose output
+                      'anc_spec': rng.choice([None, None, 'h5py', 'numpy', 'dask']), 'chunked': rng.random() < 0.3,
+                      'verbose': rng.random() < 0.2})
     return cases
 
 
@@ -65,7 +69,8 @@ def run_impl(inp, work):
     ds = inp['ds']
     path = os.path.join(work, 'a.h5')
     with h5py.File(path, 'w') as f:
-        gen.write_usid(f.create_group('G'), ds)
+        n_, m_ = gen.n_points(ds['pos']), gen.n_points(ds['spec'])
+        gen.write_usid(f.create_group('G'), ds, chunks=((max(1, n_ // 2), max(1, (m_ + 1) // 2)) if inp.get('chunked') else None))
     out = {}
     with h5py.File(path, 'r') as f:
         h5 = f['G/main']
@@ -76,7 +81,10 @@ def run_impl(inp, work):
         nd = np.asarray(r[1][0])
         out['nd'] = _tok(nd)
         hp, hs = f['G/Position_Indices'], f['G/Spectroscopic_Indices']
-        conv = {'h5py': lambda d: d, 'numpy': lambda d: d[()], 'dask': lambda d: da.from_array(d[()], chunks=d.shape)}[inp['anc']]
+        convs = {'h5py': lambda d: d, 'numpy': lambda d: d[()], 'dask': lambda d: da.from_array(d[()], chunks=d.shape)}
+        conv = convs[inp['anc']]
+        conv_s = convs[inp.get('anc_spec') or inp['anc']]
+        vkw = {'verbose': True} if inp.get('verbose') else {}
         arr = np.squeeze(nd) if inp['squeeze'] else nd
         if inp['bad'] == 'count':
             arr = np.concatenate([nd, nd], axis=0)
@@ -86,14 +94,20 @@ def run_impl(inp, work):
         out['arr_flat'] = gen.tokens(arr).ravel().tolist()
 
         def flat(a, **kw):
-            r = call(reshape_from_n_dims, a, **kw)
+            kw.update(vkw)
+            with quiet():
+                r = call(reshape_from_n_dims, a, **kw)
             if r[0] == 'err':
                 return {'err': r[1], 'cls': r[2]}
             return _tok(r[1][0])
-        out['both'] = flat(arr, h5_pos=conv(hp), h5_spec=conv(hs))
-        out['both_dask_data'] = flat(da.from_array(arr, chunks=arr.shape), h5_pos=conv(hp), h5_spec=conv(hs))
+        out['both'] = flat(arr, h5_pos=conv(hp), h5_spec=conv_s(hs))
+        out['both_dask_data'] = flat(da.from_array(arr, chunks=tuple(max(1, (x + 1) // 2) for x in arr.shape)), h5_pos=conv(hp), h5_spec=conv_s(hs))
+        if inp['bad'] is None and not inp['squeeze']:
+            # the lazily built N-D form of the (possibly chunked) HDF5 dataset itself
+            rl = call(reshape_to_n_dims, h5, lazy=True)
+            out['both_lazy_nd'] = flat(rl[1][0], h5_pos=conv(hp), h5_spec=conv_s(hs)) if rl[0] == 'ok' else {'err': rl[1], 'cls': rl[2]}
         out['pos_only'] = flat(arr, h5_pos=conv(hp))
-        out['spec_only'] = flat(arr, h5_spec=conv(hs))
+        out['spec_only'] = flat(arr, h5_spec=conv_s(hs))
         out['main'] = _tok(main)
         # one-sided requests with the index matrix of a DIFFERENT grid (same number of points)
         if inp['bad'] is None and not inp['squeeze']:
@@ -110,6 +124,8 @@ def run_impl(inp, work):
             two_d = np.array(out['both']['flat'], dtype=np.float64).reshape(out['both']['shape'])
             r = call(reshape_to_n_dims, two_d, h5_pos=hp[()], h5_spec=hs[()])
             out['again'] = _tok(r[1][0]) if r[0] == 'ok' else {'err': r[1]}
+            r = call(reshape_to_n_dims, two_d, h5_pos=hp, h5_spec=hs, lazy=True)        # HDF5 ancillaries, lazy result
+            out['again_h5_lazy'] = _tok(r[1][0]) if r[0] == 'ok' else {'err': r[1]}
     return out
 
 
@@ -126,7 +142,7 @@ def oracle(inp, obs):
     n, m = gen.n_points(ds['pos']), gen.n_points(ds['spec'])
     tag = 'single-point-side' if (n == 1 or m == 1) else 'regular'
     if inp['bad'] is None:
-        for key in ('both', 'both_dask_data'):
+        for key in ('both', 'both_dask_data') + (('both_lazy_nd',) if 'both_lazy_nd' in obs else ()):
             b = obs[key]
             if inp['squeeze'] and obs['arr_shape'] != obs['nd']['shape']:
                 # squeezing that removed exactly the one axis of a single-point side must still work
@@ -150,13 +166,25 @@ def oracle(inp, obs):
                 fails.append('left-inverse-%s: flattening the N-D form does not return the original matrix' % tag)
         if 'again' in obs and obs['again'] != obs['nd']:
             fails.append('right-inverse: reshaping the flattened matrix again does not return the same N-D array')
+        if 'again_h5_lazy' in obs and obs['again_h5_lazy'] != obs['nd'] and ds.get('dtype', 'f8') == 'f8':
+            fails.append('right-inverse-h5-lazy: reshaping the flattened matrix again (HDF5 ancillaries, lazy) does not return the same N-D array')
         # one-sided: the missing side is taken slowest -> fastest.  A permuted matrix must never be returned:
         # whatever is returned must hold, in every row, exactly the elements of ONE position of the N-D form
         nd = np.array(obs['nd']['flat']).reshape(obs['nd']['shape'])
         kp = len(ds['pos']['sizes'])
         for key, axis_is_pos in (('pos_only', True), ('spec_only', False)):
             o = obs[key]
-            if 'err' in o or inp['squeeze']:
+            if inp['squeeze']:
+                continue
+            if 'err' in o:
+                # the missing side is rebuilt from the array's shape: refused only when one of its sizes is 1
+                # (make_indices_matrix) - with every missing size >= 2 the request must succeed
+                missing = ds['spec' if axis_is_pos else 'pos']['sizes']
+                # (the given matrix is handed to the shape heuristic as stored: a position matrix needs fewer
+                #  dimensions than points - theorem flatten_pos_only's hypothesis, known finding D5a otherwise)
+                if all(x >= 2 for x in missing) and (not axis_is_pos or kp < n):
+                    fails.append('one-sided-raises-%s: flattening with only the %s matrix raised %s although every size of '
+                                 'the missing side is >= 2' % (key, 'position' if axis_is_pos else 'spectroscopic', o['cls']))
                 continue
             got = np.array(o['flat']).reshape(o['shape'])
             if axis_is_pos:
@@ -182,10 +210,13 @@ def oracle(inp, obs):
     else:
         # (with a single matrix the other side is inferred from the array, so only the two-matrix request can
         # detect an element-count mismatch)
-        if 'err' not in obs['both'] and inp['bad'] == 'count':
-            fails.append('incompatible-count: element-count mismatch did not raise with both matrices')
-        if 'err' not in obs['both'] and inp['bad'] == 'rank':
-            fails.append('incompatible-rank: rank mismatch with both matrices did not raise')
+        for key in ('both', 'both_dask_data'):
+            if key != 'both' and n * m == 1:
+                continue          # a single element cannot be permuted
+            if 'err' not in obs[key] and inp['bad'] == 'count':
+                fails.append('incompatible-count: element-count mismatch did not raise with both matrices (%s)' % key)
+            if 'err' not in obs[key] and inp['bad'] == 'rank':
+                fails.append('incompatible-rank: rank mismatch with both matrices did not raise (%s)' % key)
     return fails
 
 
